@@ -292,6 +292,10 @@ def gen_secret(rng, plain=False, comma=False):
         alpha += ',,,,,,'        # RFC-valid in userinfo; only expressible where the text is not split on commas
     pre = ''.join(rng.choice(alpha) for _ in range(rng.randint(0, 3)))
     post = ''.join(rng.choice(alpha) for _ in range(rng.randint(0, 4)))
+    if not plain and rng.random() < 0.08:
+        # two '!' in the password, the part between them spelling a word (an option name), the last part not: the text is cut at
+        # the LAST part that does not look like an option, so all of this stays with the URI
+        post = rng.choice(['!fps!3x', '!a!0', '!maxfps!9-', '!x1!#', '!loop!-'])
     return pre + core + post
 
 def gen_user(rng, plain=False, comma=False):
